@@ -780,8 +780,19 @@ func (w *c01World) oneOp() {
 		vp := w.productByID(v.ExtendedPairVaultID)
 		prod := v.ExtendedPairVaultID
 		vapp := v.AppId
+		wrongProd := false
 		if r.Chance(3) {
 			prod = p.id
+		}
+		if r.Chance(15) {
+			// the owner names ANOTHER product of the same app (with a small amount, so that no ratio check stands in the way):
+			// the handler takes denoms, ratio and totals from the named product and must refuse a vault of a different one
+			for _, q := range w.products {
+				if q.app == v.AppId && q.id != v.ExtendedPairVaultID && !q.isStable {
+					prod = q.id
+					wrongProd = true
+				}
+			}
 		}
 		if r.Chance(3) {
 			vapp = app
@@ -815,6 +826,10 @@ func (w *c01World) oneOp() {
 			amt := v.AmountIn.Sub(need).AddRaw(int64(r.Intn(5) - 2))
 			if r.Chance(40) || !amt.IsPositive() {
 				amt = w.amount(r.Intn(4))
+			}
+			if wrongProd {
+				amt = sdk.NewInt(int64(1 + r.Intn(1000)))
+				w.tr.Count("withdraw:wrong-product-same-app")
 			}
 			okk := w.deliver(&vaulttypes.MsgWithdrawRequest{From: from.String(), AppId: vapp, ExtendedPairVaultId: prod, UserVaultId: v.Id, Amount: amt})
 			emit("withdraw", fn, u(vapp), u(prod), u(v.Id), amt.String(), env, okk)
